@@ -581,6 +581,8 @@ func (fr *Frame) goStmt(in *ssa.Go) {
 	for _, a := range in.Common().Args {
 		args = append(args, fr.get(a))
 	}
+	fr.inGo = true
 	fr.siteCall(in.Common(), in.Pos(), args, true, nil)
 	fr.siteCall(in.Common(), in.Pos(), args, false, nil)
+	fr.inGo = false
 }
